@@ -82,7 +82,7 @@ def run(ctx):
 
     # ---------------- R3
     ckp = [e for e in ai.events if e['kind'] == 'add' and e['ctx'][0] == '_process_create_key_pair']
-    lines = sorted(set((e['line'], tuple(e['obj']['types'])) for e in ckp))      # two add() sites, or one site reached with each half (a helper)
+    lines = sorted(set((e['line'], tuple((e.get('obj') or {}).get('types') or ('?',))) for e in ckp))      # two add() sites, or one site reached with each half (a helper)
     cline = sorted(set(e['line'] for e in commits.get('_process_create_key_pair', [])))
     fn = m.method('_process_create_key_pair')
     ctx.check(len(lines) >= 2 and len(cline) == 1 and all(e['state']['commits'] == 0 for e in ckp), 'C09.R3',
